@@ -1,6 +1,1128 @@
-//! Component `stream` (see /verif/FRAMEWORK.md).
+//! Component `stream` (property C19): streamed task output, writer + reader, byte level.
+//!
+//! Real code driven here (in-process, from /repo's working tree):
+//!   writer  (a) the public path  `StreamerRef::new` → `Streamer::get_stream` (spawns the production
+//!               `stream_writer` with `spawn_local`) → `StreamSender::{send_data, flush}` in a `LocalSet`;
+//!           (b) the production `stream_writer` on an explicit queue (`verif::stream::run_stream_writer`),
+//!               which lets the generator choose every header field (time stamps, ids at varint borders);
+//!   reader  `OutputLog::open` / `create_index` (via `verif_from_paths`, explicit path order), the index
+//!           accessors, `verif_cat` (production `_gather_infos` + `read_buffer`), and the production `cat`,
+//!           `summary` themselves (stdout of `cat` is captured through a dup2 of fd 1).
+//!
+//! Trace ops (the Lean driver `hqm-stream` executes the same ops on the model):
+//!   op file <fidx> <uid> <worker> <chunks> <keep|->   chunks: `-` | `time:job:task:inst:ch:len:dseed,...`
+//!                                                    keep: observed file length when the writer was not flushed
+//!   op raw <fidx> <hex|->                            file with explicit content
+//!   op cut <fidx> <offset>                           file now holds only its first <offset> bytes
+//!   op open <uid-filter|-> <order>                   OutputLog::open; order = accepted files as listed
+//!   op openp <order>                                 create_index on an explicit order
+use crate::util::{catch, list, GenArgs, Rng, Trace};
+use hyperqueue::client::commands::outputlog::{CatOpts, Channel};
+use hyperqueue::common::arraydef::IntArray;
+use hyperqueue::common::serialization::SerializationConfig;
+use hyperqueue::stream::StreamSerializationConfig;
+use hyperqueue::verif::stream as hk;
+use hyperqueue::verif::stream::{OutputLog, StreamChunkHeader, VerifMessage};
+use hyperqueue::worker::streamer::StreamerRef;
+use std::collections::{BTreeMap, BTreeSet};
+use std::io::{Read, Write};
+use std::os::fd::AsRawFd;
+use std::path::{Path, PathBuf};
+use tako::{InstanceId, JobId, JobTaskId, TaskId, WorkerId};
 
-pub fn main(mode: &str, _args: &[String]) {
-    eprintln!("component stream: mode {mode} not implemented yet");
-    std::process::exit(2);
+const TIME_MIN: i64 = -8334601228800000;
+const TIME_MAX: i64 = 8210266876799999;
+
+// ------------------------------------------------------------------------------------------------ helpers
+
+fn fnv(bs: &[u8]) -> u64 {
+    let mut h: u64 = 0xcbf29ce484222325;
+    for b in bs {
+        h ^= *b as u64;
+        h = h.wrapping_mul(0x100000001b3);
+    }
+    h
+}
+
+/// deterministic data generator shared with the Lean driver (`dataGen`)
+fn data_gen(seed: u64, len: usize) -> Vec<u8> {
+    let mut x = seed % 2147483648;
+    let mut out = Vec::with_capacity(len);
+    for _ in 0..len {
+        x = (x * 1103515245 + 12345) % 2147483648;
+        out.push(((x / 65536) % 256) as u8);
+    }
+    out
+}
+
+fn hex(bs: &[u8]) -> String {
+    if bs.is_empty() {
+        return "-".into();
+    }
+    bs.iter().map(|b| format!("{b:02x}")).collect()
+}
+
+fn unhex(s: &str) -> Vec<u8> {
+    if s == "-" {
+        return vec![];
+    }
+    (0..s.len() / 2).map(|i| u8::from_str_radix(&s[2 * i..2 * i + 2], 16).unwrap()).collect()
+}
+
+unsafe extern "C" {
+    fn dup(fd: i32) -> i32;
+    fn dup2(a: i32, b: i32) -> i32;
+    fn close(fd: i32) -> i32;
+}
+
+/// Runs `f` with fd 1 redirected into a scratch file and returns what was printed.
+fn capture_stdout<R>(scratch: &Path, f: impl FnOnce() -> R) -> (R, Vec<u8>) {
+    std::io::stdout().flush().unwrap();
+    let file = std::fs::File::create(scratch).unwrap();
+    let saved = unsafe { dup(1) };
+    assert!(saved >= 0);
+    unsafe { dup2(file.as_raw_fd(), 1) };
+    let r = std::panic::catch_unwind(std::panic::AssertUnwindSafe(f));
+    let _ = std::io::stdout().flush();
+    unsafe {
+        dup2(saved, 1);
+        close(saved);
+    }
+    drop(file);
+    let mut out = Vec::new();
+    std::fs::File::open(scratch).unwrap().read_to_end(&mut out).unwrap();
+    match r {
+        Ok(r) => (r, out),
+        Err(e) => std::panic::resume_unwind(e),
+    }
+}
+
+// ------------------------------------------------------------------------------------------------ schedule
+
+#[derive(Clone, Debug)]
+struct ChunkSpec {
+    time: i64,
+    job: u32,
+    task: u32,
+    inst: u32,
+    ch: u32,
+    len: usize,
+    dseed: u64,
+}
+
+impl ChunkSpec {
+    fn show(&self) -> String {
+        format!("{}:{}:{}:{}:{}:{}:{}", self.time, self.job, self.task, self.inst, self.ch, self.len, self.dseed)
+    }
+    fn parse(s: &str) -> ChunkSpec {
+        let t: Vec<&str> = s.split(':').collect();
+        ChunkSpec {
+            time: t[0].parse().unwrap(),
+            job: t[1].parse().unwrap(),
+            task: t[2].parse().unwrap(),
+            inst: t[3].parse().unwrap(),
+            ch: t[4].parse().unwrap(),
+            len: t[5].parse().unwrap(),
+            dseed: t[6].parse().unwrap(),
+        }
+    }
+    fn data(&self) -> Vec<u8> {
+        data_gen(self.dseed, self.len)
+    }
+}
+
+#[derive(Clone, Copy, PartialEq, Debug)]
+enum Via {
+    /// StreamerRef / get_stream / send_data (time stamps = Utc::now(), read back from the file)
+    Api,
+    /// production stream_writer on an explicit queue
+    Raw,
+}
+
+#[derive(Clone, Debug)]
+enum FileKind {
+    Written { uid: String, worker: u32, chunks: Vec<ChunkSpec>, via: Via, flush_end: bool },
+    Garbage(Vec<u8>),
+}
+
+#[derive(Clone, Debug)]
+struct PlanFile {
+    fidx: usize,
+    kind: FileKind,
+}
+
+/// a file as it exists on disk during a case
+struct DiskFile {
+    fidx: usize,
+    path: PathBuf,
+    full: Vec<u8>,
+    cut: usize,
+    /// (data start, end) of every chunk of a written file, from decoding the real bytes
+    layout: Vec<(usize, usize)>,
+    chunks: Vec<ChunkSpec>,
+    uid: Option<String>,
+    /// the writer flushed at the end (everything it was sent is in `full`)
+    complete: bool,
+}
+
+fn list_hqs(dir: &Path) -> BTreeSet<PathBuf> {
+    std::fs::read_dir(dir)
+        .unwrap()
+        .map(|e| e.unwrap().path())
+        .filter(|p| p.extension().map(|e| e == hk::STREAM_FILE_SUFFIX).unwrap_or(false))
+        .collect()
+}
+
+fn chunk_header(c: &ChunkSpec) -> StreamChunkHeader {
+    StreamChunkHeader {
+        time: chrono::DateTime::from_timestamp_millis(c.time).expect("time in chrono range"),
+        task: TaskId::new(JobId::new(c.job), JobTaskId::new(c.task)),
+        instance: InstanceId::new(c.inst),
+        channel: c.ch,
+        size: c.len as u64,
+    }
+}
+
+/// Writes one file with the real writer; returns the path of the file the writer created.
+fn write_file(dir: &Path, uid: &str, worker: u32, chunks: &mut [ChunkSpec], via: Via, flush_end: bool) -> PathBuf {
+    let before = list_hqs(dir);
+    let rt = tokio::runtime::Builder::new_current_thread().enable_all().build().unwrap();
+    let local = tokio::task::LocalSet::new();
+    match via {
+        Via::Raw => {
+            let mut msgs: Vec<VerifMessage> = chunks
+                .iter()
+                .map(|c| VerifMessage::Write { header: chunk_header(c), data: c.data() })
+                .collect();
+            if flush_end {
+                msgs.push(VerifMessage::Flush);
+            }
+            local.block_on(&rt, async {
+                hk::run_stream_writer(uid, WorkerId::new(worker), dir, msgs).await.expect("stream_writer failed");
+            });
+        }
+        Via::Api => {
+            local.block_on(&rt, async {
+                let streamer = StreamerRef::new(uid, WorkerId::new(worker));
+                let mut senders = BTreeMap::new();
+                // one StreamSender per (task, instance), as `run_task` obtains it
+                for c in chunks.iter() {
+                    senders.entry((c.job, c.task, c.inst)).or_insert_with(|| {
+                        streamer
+                            .get_mut()
+                            .get_stream(
+                                &streamer,
+                                dir,
+                                TaskId::new(JobId::new(c.job), JobTaskId::new(c.task)),
+                                InstanceId::new(c.inst),
+                            )
+                            .expect("get_stream")
+                    });
+                }
+                if senders.is_empty() {
+                    // a worker that opened the stream directory but never sent anything
+                    let s = streamer
+                        .get_mut()
+                        .get_stream(&streamer, dir, TaskId::new(JobId::new(0), JobTaskId::new(0)), InstanceId::new(0))
+                        .expect("get_stream");
+                    senders.insert((0, 0, 0), s);
+                }
+                let mut last = None;
+                for c in chunks.iter() {
+                    let s = &senders[&(c.job, c.task, c.inst)];
+                    s.send_data(c.ch, c.data()).await.expect("send_data");
+                    last = Some((c.job, c.task, c.inst));
+                }
+                let any = last.unwrap_or((0, 0, 0));
+                if flush_end {
+                    senders[&any].flush().await.expect("flush");
+                } else {
+                    // let the writer drain the queue, but without a final flush (worker killed)
+                    for _ in 0..(chunks.len() + 8) {
+                        tokio::task::yield_now().await;
+                    }
+                }
+                drop(senders);
+                // the writer task ends when every sender is gone
+                for _ in 0..16 {
+                    tokio::task::yield_now().await;
+                }
+            });
+        }
+    }
+    drop(local);
+    drop(rt); // joins the blocking pool: pending file writes are done
+    let after = list_hqs(dir);
+    let new: Vec<_> = after.difference(&before).cloned().collect();
+    assert_eq!(new.len(), 1, "writer must create exactly one file");
+    if via == Via::Api {
+        // time stamps were chosen by the real code (Utc::now()): read them back
+        let bytes = std::fs::read(&new[0]).unwrap();
+        let (_, heads) = decode_layout(&bytes);
+        for (c, h) in chunks.iter_mut().zip(heads.iter()) {
+            c.time = h.2;
+        }
+    }
+    new[0].clone()
+}
+
+/// Decodes a stream file with the real serialization config: offset behind the file header and, per chunk
+/// whose header is complete, (data start, end, time).
+fn decode_layout(bytes: &[u8]) -> (usize, Vec<(usize, usize, i64)>) {
+    let magic = hk::STREAM_FILE_HEADER.len();
+    if bytes.len() < magic {
+        return (0, vec![]);
+    }
+    #[derive(serde::Deserialize)]
+    struct FileHeader {
+        _server_uid: String,
+        _worker_id: u32,
+    }
+    use bincode::Options;
+    let mut cur = std::io::Cursor::new(&bytes[magic..]);
+    if StreamSerializationConfig::config().deserialize_from::<_, FileHeader>(&mut cur).is_err() {
+        return (0, vec![]);
+    }
+    let hdr_len = magic + cur.position() as usize;
+    let mut out = Vec::new();
+    loop {
+        let r: Result<StreamChunkHeader, _> = StreamSerializationConfig::config().deserialize_from(&mut cur);
+        match r {
+            Ok(h) => {
+                let start = magic + cur.position() as usize;
+                let end = start + h.size as usize;
+                out.push((start, end, h.time.timestamp_millis()));
+                cur.set_position(cur.position() + h.size);
+                if end > bytes.len() {
+                    break;
+                }
+            }
+            Err(_) => break,
+        }
+    }
+    (hdr_len, out)
+}
+
+// ------------------------------------------------------------------------------------------------ ground truth
+
+#[derive(Default, Clone)]
+struct InstTruth {
+    files: BTreeSet<usize>,
+    data: [Vec<u8>; 2],
+    finished: bool,
+    /// end offset (in its file) of the last chunk of the instance
+    last_end: usize,
+}
+
+struct Truth {
+    /// hypotheses of c19_readback hold for the schedule
+    hyp: bool,
+    tasks: BTreeMap<(u32, u32), BTreeMap<u32, InstTruth>>,
+}
+
+/// `NoReturn` of the Lean statement: once the sequence left a value it never returns to it.
+fn no_return(seq: &[u32]) -> bool {
+    let mut seen = BTreeSet::new();
+    let mut last = None;
+    for x in seq {
+        if Some(*x) != last && !seen.insert(*x) {
+            return false;
+        }
+        last = Some(*x);
+    }
+    true
+}
+
+fn truth(files: &[&DiskFile]) -> Truth {
+    let mut hyp = true;
+    let mut tasks: BTreeMap<(u32, u32), BTreeMap<u32, InstTruth>> = BTreeMap::new();
+    let mut uids = BTreeSet::new();
+    for f in files {
+        match &f.uid {
+            Some(u) => {
+                uids.insert(u.clone());
+            }
+            None => hyp = false,
+        }
+        let mut per_task: BTreeMap<(u32, u32), Vec<u32>> = BTreeMap::new();
+        for (k, c) in f.chunks.iter().enumerate() {
+            if c.ch >= 2 {
+                hyp = false;
+                continue;
+            }
+            per_task.entry((c.job, c.task)).or_default().push(c.inst);
+            let it = tasks.entry((c.job, c.task)).or_default().entry(c.inst).or_default();
+            it.files.insert(f.fidx);
+            it.data[c.ch as usize].extend_from_slice(&c.data());
+            if c.len == 0 {
+                it.finished = true;
+            }
+            it.last_end = f.layout.get(k).map(|x| x.1).unwrap_or(usize::MAX);
+        }
+        for seq in per_task.values() {
+            if !no_return(seq) {
+                hyp = false;
+            }
+        }
+    }
+    if uids.len() > 1 {
+        hyp = false;
+    }
+    for insts in tasks.values() {
+        for it in insts.values() {
+            if it.files.len() != 1 {
+                hyp = false;
+            }
+        }
+    }
+    Truth { hyp, tasks }
+}
+
+// ------------------------------------------------------------------------------------------------ a case
+
+struct CaseRun<'a> {
+    tr: &'a mut Trace,
+    dir: PathBuf,
+    scratch: PathBuf,
+    files: Vec<DiskFile>,
+    dead: bool,
+    cat_checked: bool,
+}
+
+impl<'a> CaseRun<'a> {
+    fn file(&self, fidx: usize) -> &DiskFile {
+        self.files.iter().find(|f| f.fidx == fidx).unwrap()
+    }
+
+    fn out_file(&mut self, fidx: usize) {
+        let f = self.file(fidx);
+        let cur = &f.full[..f.cut.min(f.full.len())];
+        let line = format!("file {} {} {}", fidx, cur.len(), fnv(cur));
+        self.tr.out(&line);
+    }
+
+    fn add_written(&mut self, fidx: usize, uid: &str, worker: u32, mut chunks: Vec<ChunkSpec>, via: Via, flush_end: bool) {
+        let path = write_file(&self.dir, uid, worker, &mut chunks, via, flush_end);
+        let full = std::fs::read(&path).unwrap();
+        let keep = if flush_end { "-".to_string() } else { full.len().to_string() };
+        self.tr.op(&format!(
+            "file {} {} {} {} {}",
+            fidx,
+            uid,
+            worker,
+            if chunks.is_empty() { "-".to_string() } else { chunks.iter().map(|c| c.show()).collect::<Vec<_>>().join(",") },
+            keep
+        ));
+        let (_, lay) = decode_layout(&full);
+        let layout = lay.iter().map(|x| (x.0, x.1)).collect();
+        let cut = full.len();
+        self.files.push(DiskFile { fidx, path, full, cut, layout, chunks, uid: Some(uid.to_string()), complete: flush_end });
+        self.out_file(fidx);
+    }
+
+    fn add_raw(&mut self, fidx: usize, bytes: Vec<u8>) {
+        let path = self.dir.join(format!("raw{fidx}.{}", hk::STREAM_FILE_SUFFIX));
+        std::fs::write(&path, &bytes).unwrap();
+        self.tr.op(&format!("raw {} {}", fidx, hex(&bytes)));
+        let cut = bytes.len();
+        self.files.push(DiskFile { fidx, path, full: bytes, cut, layout: vec![], chunks: vec![], uid: None, complete: true });
+        self.out_file(fidx);
+    }
+
+    fn cut(&mut self, fidx: usize, off: usize) {
+        let f = self.files.iter_mut().find(|f| f.fidx == fidx).unwrap();
+        f.cut = off.min(f.full.len());
+        // rewrite in place (same inode, same directory entry)
+        let mut h = std::fs::OpenOptions::new().write(true).truncate(true).open(&f.path).unwrap();
+        h.write_all(&f.full[..f.cut]).unwrap();
+        drop(h);
+        self.tr.op(&format!("cut {fidx} {off}"));
+        self.out_file(fidx);
+    }
+
+    fn fidx_of(&self, p: &Path) -> usize {
+        self.files.iter().find(|f| f.path == p).map(|f| f.fidx).unwrap_or(999999)
+    }
+
+    /// `OutputLog::open` on the directory (order observed) or `create_index` on an explicit order.
+    fn open(&mut self, filter: Option<&str>, explicit: Option<&[usize]>) {
+        if self.dead {
+            return;
+        }
+        let dir = self.dir.clone();
+        let res = match explicit {
+            None => catch(|| OutputLog::open(&dir, filter)),
+            Some(order) => {
+                let paths: Vec<PathBuf> = order.iter().map(|i| self.file(*i).path.clone()).collect();
+                catch(|| OutputLog::verif_from_paths(paths))
+            }
+        };
+        let order: Vec<usize> = match &res {
+            Ok(Ok(log)) => log.verif_paths().iter().map(|p| self.fidx_of(p)).collect(),
+            _ => match explicit {
+                Some(o) => o.to_vec(),
+                None => self.model_accepted(filter),
+            },
+        };
+        match explicit {
+            None => self.tr.op(&format!("open {} {}", filter.unwrap_or("-"), list(order.iter()))),
+            Some(o) => self.tr.op(&format!("openp {}", list(o.iter()))),
+        }
+        match res {
+            Err(msg) => {
+                let site = if msg.contains("index out of bounds") { "channel-index" } else { "other" };
+                self.tr.out(&format!("!panic {site}"));
+                self.dead = true;
+            }
+            Ok(Err(e)) => {
+                let s = e.to_string();
+                let kind = if s.contains("No log files found") {
+                    "nofiles"
+                } else if s.contains("multiple server instances") {
+                    "multiuid"
+                } else {
+                    "invalid"
+                };
+                self.tr.out(&format!("open {kind}"));
+            }
+            Ok(Ok(mut log)) => {
+                self.tr.out("open ok");
+                self.dump(&mut log, &order, explicit);
+            }
+        }
+    }
+
+    /// When `open` fails the real code reveals no path order; any order of the files with a readable header
+    /// and matching uid is as good as another (the model checks the set).
+    fn model_accepted(&self, filter: Option<&str>) -> Vec<usize> {
+        let mut v = vec![];
+        for f in &self.files {
+            let cur = &f.full[..f.cut];
+            let (hl, _) = decode_layout(cur);
+            if hl > 0 {
+                let uid_ok = match filter {
+                    None => true,
+                    Some(u) => file_uid(cur).as_deref() == Some(u),
+                };
+                if uid_ok {
+                    v.push(f.fidx);
+                }
+            }
+        }
+        v
+    }
+
+    fn dump(&mut self, log: &mut OutputLog, order: &[usize], explicit: Option<&[usize]>) {
+        let index = log.verif_index();
+        // ground truth over the files that are in the listing that was opened
+        let present: Vec<&DiskFile> = match explicit {
+            Some(o) => self.files.iter().filter(|f| o.contains(&f.fidx)).collect(),
+            None => self.files.iter().collect(),
+        };
+        let truth = truth(&present);
+        let cuts: BTreeMap<usize, usize> = self.files.iter().map(|f| (f.fidx, f.cut)).collect();
+        let all_full = present.iter().all(|f| f.cut >= f.full.len() && f.complete);
+        for (job, task, insts) in &index {
+            let fx = |i: usize| order.get(i).copied().unwrap_or(999999);
+            self.tr.out(&format!(
+                "idx {job} {task} {}",
+                list(insts.iter().map(|i| format!(
+                    "{}:{}:{}:{}:{}",
+                    i.instance_id,
+                    fx(i.file_idx),
+                    i.finished as u8,
+                    i.channels[0].len(),
+                    i.channels[1].len()
+                )))
+            ));
+            let mut cats: [Option<Vec<u8>>; 2] = [None, None];
+            let mut fin = None;
+            for ch in 0..2usize {
+                match log.verif_cat(JobId::new(*job), *task, ch) {
+                    Ok((f, data)) => {
+                        self.tr.out(&format!("cat {job} {task} {ch} ok {} {}", data.len(), fnv(&data)));
+                        cats[ch] = Some(data);
+                        fin = Some(f);
+                    }
+                    Err(_) => self.tr.out(&format!("cat {job} {task} {ch} err")),
+                }
+            }
+            let fin_idx = insts.last().map(|i| i.finished);
+            self.tr.out(&format!("fin {job} {task} {}", fin_idx.map(|b| (b as u8).to_string()).unwrap_or("-".into())));
+            let sup = log.verif_superseded(JobId::new(*job), *task).unwrap_or_default();
+            self.tr.out(&format!("sup {job} {task} {}", list(sup.iter())));
+            if let (Some(a), Some(b)) = (fin, fin_idx) {
+                if a != b {
+                    self.tr.mon_fail("c19.finished", "gather-vs-index", &format!("task {job}.{task}: _gather_infos instance finished={a}, last index instance finished={b}"));
+                }
+            }
+
+            // ---- the production `cat` itself, once per case on the undisturbed directory
+            if all_full && !self.cat_checked {
+                for ch in 0..2usize {
+                    let opts = CatOpts {
+                        job: JobId::new(*job),
+                        channel: if ch == 0 { Channel::Stdout } else { Channel::Stderr },
+                        task: Some(IntArray::from_id(*task)),
+                        allow_unfinished: true,
+                    };
+                    self.tr.flush();
+                    let (r, printed) = capture_stdout(&self.scratch, || log.cat(&opts));
+                    let same = match (&r, &cats[ch]) {
+                        (Ok(()), Some(d)) => &printed == d,
+                        (Err(_), None) => true,
+                        _ => false,
+                    };
+                    if !same {
+                        self.tr.mon_fail("c19.cat", "cat-vs-accessor", &format!("task {job}.{task} ch {ch}: `cat` printed {} bytes (ok={}), index accessor gives {:?} bytes", printed.len(), r.is_ok(), cats[ch].as_ref().map(|d| d.len())));
+                    }
+                    // without --allow-unfinished `cat` must refuse exactly the unfinished streams
+                    let strict = CatOpts { allow_unfinished: false, ..opts };
+                    let (r2, _) = capture_stdout(&self.scratch, || log.cat(&strict));
+                    if let Some(f) = fin_idx {
+                        if r.is_ok() && r2.is_ok() != f {
+                            self.tr.mon_fail("c19.finished", "strict-cat", &format!("task {job}.{task}: finished={f} but strict cat ok={}", r2.is_ok()));
+                        }
+                    }
+                }
+            }
+
+            // ---- monitors: the theorems' conclusions on the real behaviour
+            if !truth.hyp {
+                continue;
+            }
+            let Some(tt) = truth.tasks.get(&(*job, *task)) else {
+                self.tr.mon_fail("c19.readback", "phantom-task", &format!("task {job}.{task} is in the index but was never written"));
+                continue;
+            };
+            let (max_inst, it) = tt.iter().next_back().unwrap();
+            let f = *it.files.iter().next().unwrap();
+            let intact = cuts[&f] >= it.last_end;
+            if intact {
+                let clause = if all_full { "c19.readback" } else { "c19.torn" };
+                for ch in 0..2usize {
+                    match &cats[ch] {
+                        Some(d) if *d == it.data[ch] => {}
+                        other => self.tr.mon_fail(clause, "bytes", &format!(
+                            "task {job}.{task} ch {ch}: read back {:?} bytes, the last instance {max_inst} wrote {} bytes (cuts {:?})",
+                            other.as_ref().map(|d| d.len()), it.data[ch].len(), cuts)),
+                    }
+                }
+                if fin_idx != Some(it.finished) {
+                    let clause = if all_full { "c19.finished" } else { "c19.torn" };
+                    self.tr.mon_fail(clause, "flag", &format!(
+                        "task {job}.{task}: finished={fin_idx:?}, end marker of instance {max_inst} written={} (cuts {:?})", it.finished, cuts));
+                }
+                if all_full {
+                    let expect: Vec<u32> = tt.keys().copied().filter(|i| i != max_inst).collect();
+                    if sup != expect {
+                        self.tr.mon_fail("c19.superseded", "set", &format!("task {job}.{task}: superseded {sup:?}, earlier instances written {expect:?}"));
+                    }
+                }
+            }
+        }
+        if truth.hyp && all_full {
+            for (job, task) in truth.tasks.keys() {
+                if !index.iter().any(|(j, t, _)| j == job && t == task) {
+                    self.tr.mon_fail("c19.readback", "missing-task", &format!("task {job}.{task} was written but is not in the index"));
+                }
+            }
+        }
+        let s = log.summary();
+        self.tr.out(&format!(
+            "sum {} {} {} {} {} {} {} {} {} {}",
+            s.n_files, s.n_jobs, s.n_tasks, s.n_streams, s.n_opened, s.stdout_size, s.stderr_size, s.n_superseded,
+            s.superseded_stdout_size, s.superseded_stderr_size
+        ));
+        if all_full {
+            self.cat_checked = true;
+        }
+    }
+}
+
+fn file_uid(bytes: &[u8]) -> Option<String> {
+    let magic = hk::STREAM_FILE_HEADER.len();
+    if bytes.len() < magic {
+        return None;
+    }
+    use bincode::Options;
+    let r: Result<(String, u32), _> = StreamSerializationConfig::config().deserialize(&bytes[magic..]);
+    r.ok().map(|x| x.0)
+}
+
+// ------------------------------------------------------------------------------------------------ generators
+
+fn stdio_buffer_size() -> usize {
+    // `STDIO_BUFFER_SIZE` is private to worker/start/program.rs: read it from the source text
+    let src = std::fs::read_to_string("/repo/crates/hyperqueue/src/worker/start/program.rs").unwrap_or_default();
+    for line in src.lines() {
+        if let Some(rest) = line.trim().strip_prefix("const STDIO_BUFFER_SIZE: usize =") {
+            let expr = rest.split(';').next().unwrap_or("");
+            let prod: Option<usize> = expr.split('*').map(|t| t.trim().parse::<usize>().ok()).product();
+            if let Some(p) = prod {
+                return p;
+            }
+        }
+    }
+    16 * 1024
+}
+
+fn riffle<T>(rng: &mut Rng, mut seqs: Vec<Vec<T>>) -> Vec<T> {
+    for s in seqs.iter_mut() {
+        s.reverse();
+    }
+    let mut out = vec![];
+    loop {
+        let w: Vec<u64> = seqs.iter().map(|s| s.len() as u64).collect();
+        if w.iter().all(|x| *x == 0) {
+            return out;
+        }
+        let i = rng.weighted(&w);
+        out.push(seqs[i].pop().unwrap());
+    }
+}
+
+fn pick_len(rng: &mut Rng, bufsize: usize, big_ok: bool) -> usize {
+    match rng.weighted(&[3, 6, 2, if big_ok { 1 } else { 0 }, 1]) {
+        0 => 1,
+        1 => rng.range(2, 40) as usize,
+        2 => *rng.pick(&[250usize, 251, 252, 255, 256]),
+        3 => *rng.pick(&[bufsize, bufsize, bufsize - 1, 65535, 65536]),
+        _ => rng.range(41, 600) as usize,
+    }
+}
+
+/// chunk sequence of one execution: both pipes interleaved, end markers (unless the execution crashed)
+fn instance_chunks(rng: &mut Rng, job: u32, task: u32, inst: u32, bufsize: usize, big_ok: bool, time: i64) -> Vec<ChunkSpec> {
+    let piped: &[u32] = match rng.below(4) {
+        0 => &[0],
+        1 => &[1],
+        _ => &[0, 1],
+    };
+    let crashed = rng.chance(1, 4);
+    let mut seqs = vec![];
+    for ch in piped {
+        let n = match rng.below(5) {
+            0 => 0, // empty output
+            1 => 1,
+            _ => rng.range(1, 5),
+        };
+        let mut s: Vec<ChunkSpec> = (0..n)
+            .map(|_| ChunkSpec { time, job, task, inst, ch: *ch, len: pick_len(rng, bufsize, big_ok), dseed: rng.below(1 << 30) })
+            .collect();
+        if !(crashed && rng.chance(2, 3)) {
+            s.push(ChunkSpec { time, job, task, inst, ch: *ch, len: 0, dseed: 0 });
+        }
+        seqs.push(s);
+    }
+    riffle(rng, seqs)
+}
+
+const BORDER_IDS: [u32; 8] = [0, 1, 250, 251, 65535, 65536, 4294967295, 7];
+const BORDER_TIMES: [i64; 12] = [0, -1, 1, 125, -126, 126, 32767, 32768, -2147483648, 1767225600000, TIME_MIN, TIME_MAX];
+
+fn gen_plan(rng: &mut Rng, kind: u64, bufsize: usize) -> Vec<PlanFile> {
+    let mut files: Vec<PlanFile> = vec![];
+    let uid = "Uid0Abc".to_string();
+    match kind {
+        // ---- within the hypotheses: tasks × instances spread over 1..3 writers, chunks interleaved
+        0 | 1 | 5 => {
+            let nfiles = rng.range(1, 3) as usize;
+            let ntasks = rng.range(1, 5) as u32;
+            let raw = kind == 1;
+            let mut per_file: Vec<BTreeMap<(u32, u32), Vec<Vec<ChunkSpec>>>> = vec![BTreeMap::new(); nfiles];
+            let mut big_budget = 2;
+            for t in 0..ntasks {
+                let (job, task) = if raw {
+                    {
+                        // task id u32::MAX is avoided: `IntArray::from_id(u32::MAX).iter()` is empty (start + count
+                        // wraps), so `cat --task 4294967295` selects nothing - see notes/stream_auth.md (S2)
+                        const BORDER_TASKS: [u32; 8] = [0, 1, 250, 251, 65535, 65536, 4294967294, 7];
+                        let base = rng.below(8) as u32;
+                        (*rng.pick(&BORDER_IDS), BORDER_TASKS[((base + t) % 8) as usize])
+                    }
+                } else {
+                    (rng.range(1, 2) as u32, t)
+                };
+                let ninst = rng.range(1, 3);
+                let mut inst = if raw { *rng.pick(&[0u32, 249, 250, 65534, 4294967290]) } else { rng.below(3) as u32 };
+                for _ in 0..ninst {
+                    let f = rng.below(nfiles as u64) as usize;
+                    let big_ok = big_budget > 0 && rng.chance(1, 3);
+                    let time = if raw { *rng.pick(&BORDER_TIMES) } else { 0 };
+                    let cs = instance_chunks(rng, job, task, inst, bufsize, big_ok, time);
+                    if cs.iter().any(|c| c.len >= 4096) {
+                        big_budget -= 1;
+                    }
+                    per_file[f].entry((job, task)).or_default().push(cs);
+                    inst = inst.wrapping_add(rng.range(1, 2) as u32);
+                }
+            }
+            for (fidx, pf) in per_file.into_iter().enumerate() {
+                // instances of one task inside one file are sequential (one live execution at a time);
+                // mostly in increasing order, sometimes not
+                let seqs: Vec<Vec<ChunkSpec>> = pf
+                    .into_values()
+                    .map(|mut insts| {
+                        if rng.chance(1, 4) {
+                            insts.reverse();
+                        }
+                        insts.into_iter().flatten().collect()
+                    })
+                    .collect();
+                let chunks = riffle(rng, seqs);
+                let via = if raw || kind == 5 { Via::Raw } else { Via::Api };
+                let flush_end = !(kind == 5 && fidx == 0);
+                files.push(PlanFile { fidx, kind: FileKind::Written { uid: uid.clone(), worker: if raw { *rng.pick(&BORDER_IDS) } else { fidx as u32 + 1 }, chunks, via, flush_end } });
+            }
+            if kind == 5 {
+                // make the unflushed file long enough that BufWriter has written a part of it
+                if let FileKind::Written { chunks, .. } = &mut files[0].kind {
+                    for k in 0..3 {
+                        chunks.push(ChunkSpec { time: 0, job: 9, task: 9, inst: 1, ch: 0, len: 3000 + 1000 * k, dseed: rng.below(1 << 30) });
+                    }
+                }
+            }
+        }
+        // ---- outside the hypotheses: instances of one task interleaved in a file / one instance in two files
+        2 => {
+            let nfiles = rng.range(1, 3) as usize;
+            let mut all: Vec<Vec<ChunkSpec>> = vec![vec![]; nfiles];
+            let ntasks = rng.range(1, 3) as u32;
+            for f in 0..nfiles {
+                let mut seqs = vec![];
+                for t in 0..ntasks {
+                    for inst in 0..rng.range(1, 3) as u32 {
+                        seqs.push(instance_chunks(rng, 1, t, inst, bufsize, false, 0));
+                    }
+                }
+                all[f] = riffle(rng, seqs);
+            }
+            for (fidx, chunks) in all.into_iter().enumerate() {
+                files.push(PlanFile { fidx, kind: FileKind::Written { uid: uid.clone(), worker: fidx as u32 + 1, chunks, via: Via::Raw, flush_end: true } });
+            }
+        }
+        // ---- many alternating blocks of one task (stability of the instance sort)
+        3 => {
+            let n = rng.range(24, 70);
+            let ids: Vec<u32> = (0..rng.range(2, 3) as u32).collect();
+            let mut chunks = vec![];
+            for _ in 0..n {
+                let inst = *rng.pick(&ids);
+                chunks.push(ChunkSpec { time: 0, job: 1, task: 0, inst, ch: rng.below(2) as u32, len: rng.range(0, 3) as usize, dseed: rng.below(1 << 30) });
+            }
+            let split = rng.below(n) as usize;
+            let second = chunks.split_off(split);
+            files.push(PlanFile { fidx: 0, kind: FileKind::Written { uid: uid.clone(), worker: 1, chunks, via: Via::Raw, flush_end: true } });
+            if rng.chance(1, 2) {
+                files.push(PlanFile { fidx: 1, kind: FileKind::Written { uid: uid.clone(), worker: 2, chunks: second, via: Via::Raw, flush_end: true } });
+            }
+        }
+        // ---- channel ≥ 2, several server uids, unreadable files
+        4 => {
+            let mut chunks = instance_chunks(rng, 1, 0, 0, bufsize, false, 5);
+            match rng.below(3) {
+                0 => chunks.push(ChunkSpec { time: 5, job: 1, task: 1, inst: 0, ch: rng.range(2, 3) as u32, len: rng.range(1, 9) as usize, dseed: 3 }),
+                1 => chunks.push(ChunkSpec { time: 5, job: 1, task: 1, inst: 0, ch: rng.range(2, 300) as u32, len: 0, dseed: 0 }),
+                _ => {}
+            }
+            files.push(PlanFile { fidx: 0, kind: FileKind::Written { uid: uid.clone(), worker: 1, chunks, via: Via::Raw, flush_end: true } });
+            if rng.chance(1, 2) {
+                let other = if rng.chance(1, 2) { "OtherUid9".to_string() } else { uid.clone() };
+                let chunks = instance_chunks(rng, 1, 2, 1, bufsize, false, 6);
+                files.push(PlanFile { fidx: 1, kind: FileKind::Written { uid: other, worker: 2, chunks, via: Via::Raw, flush_end: true } });
+            }
+            if rng.chance(2, 3) {
+                files.push(PlanFile { fidx: 2, kind: FileKind::Garbage(gen_garbage(rng)) });
+            }
+        }
+        _ => {}
+    }
+    files
+}
+
+fn varint(v: u64) -> Vec<u8> {
+    use bincode::Options;
+    StreamSerializationConfig::config().serialize(&v).unwrap()
+}
+
+/// hand-made file contents: broken magic, short headers, discriminants 254/255, non-minimal varints,
+/// u32 overflow, time stamp outside chrono's range, non-ASCII uid
+fn gen_garbage(rng: &mut Rng) -> Vec<u8> {
+    let mut good = hk::STREAM_FILE_HEADER.to_vec();
+    good.extend(varint(3));
+    good.extend(b"Uid");
+    good.extend(varint(7));
+    let hdr = |t: Vec<u8>, job: Vec<u8>, task: Vec<u8>, inst: Vec<u8>, ch: Vec<u8>, size: Vec<u8>| -> Vec<u8> {
+        [t, job, task, inst, ch, size].concat()
+    };
+    let uid0 = {
+        let mut g = hk::STREAM_FILE_HEADER.to_vec();
+        g.extend(varint(7));
+        g.extend(b"Uid0Abc");
+        g.extend(varint(7));
+        g
+    };
+    match rng.below(12) {
+        0 => b"hqsf0001".to_vec(),
+        1 => good[..rng.below(good.len() as u64) as usize].to_vec(),
+        2 => vec![],
+        3 => [uid0.clone(), hdr(vec![255], vec![1], vec![1], vec![1], vec![0], vec![0])].concat(),
+        4 => [uid0.clone(), hdr(vec![2], vec![254, 1, 2], vec![1], vec![1], vec![0], vec![0])].concat(),
+        5 => [uid0.clone(), hdr(vec![2], vec![251, 5, 0], vec![252, 6, 0, 0, 0], vec![253, 1, 0, 0, 0, 0, 0, 0, 0], vec![0], vec![2]), vec![65, 66]].concat(),
+        6 => [uid0.clone(), hdr(vec![2], vec![253, 0, 0, 0, 0, 1, 0, 0, 0], vec![1], vec![1], vec![0], vec![0])].concat(),
+        7 => [uid0.clone(), hdr(varint(2 * (TIME_MAX as u64 + 1)), vec![1], vec![1], vec![1], vec![0], vec![0])].concat(),
+        8 => [uid0.clone(), hdr(varint(2 * (-(TIME_MIN + 1)) as u64 + 1), vec![1], vec![1], vec![1], vec![0], vec![0]), hdr(varint(2 * (-TIME_MIN) as u64 + 1), vec![1], vec![1], vec![1], vec![0], vec![0])].concat(),
+        9 => {
+            let mut g = hk::STREAM_FILE_HEADER.to_vec();
+            g.extend(varint(2));
+            g.extend([0xc3, 0x28]);
+            g.extend(varint(7));
+            g
+        }
+        10 => [uid0.clone(), hdr(vec![2], vec![1], vec![5], vec![1], vec![1], vec![200]), vec![1, 2, 3]].concat(),
+        _ => [uid0, hdr(vec![2], vec![1], vec![5], vec![1], vec![0], vec![3]), vec![1, 2, 3], vec![2, 1, 5, 251]].concat(),
+    }
+}
+
+fn run_case(tr: &mut Trace, idx: u64, subseed: u64, thorough: bool, bufsize: usize, forced_kind: Option<u64>) {
+    let mut rng = Rng::new(subseed);
+    let kind = forced_kind.unwrap_or_else(|| rng.weighted(&[8, 4, 3, 2, 3, 1, 1]) as u64);
+    let plan = gen_plan(&mut rng, kind, bufsize);
+    let tmp = tempfile::tempdir().unwrap();
+    let dir = tmp.path().join("stream");
+    std::fs::create_dir_all(&dir).unwrap();
+    tr.case(idx, subseed, &format!("kind={kind} bufsize={bufsize}"));
+    let mut run = CaseRun { tr, dir, scratch: tmp.path().join("stdout.capture"), files: vec![], dead: false, cat_checked: false };
+    for pf in plan {
+        match pf.kind {
+            FileKind::Written { uid, worker, chunks, via, flush_end } => run.add_written(pf.fidx, &uid, worker, chunks, via, flush_end),
+            FileKind::Garbage(b) => run.add_raw(pf.fidx, b),
+        }
+    }
+    exercise(&mut run, &mut rng, thorough, kind);
+    run.tr.end();
+}
+
+/// the reader-side ops of a case: open, permuted opens, uid filters, the truncation sweep
+fn exercise(run: &mut CaseRun, rng: &mut Rng, thorough: bool, kind: u64) {
+    run.open(None, None);
+    let ids: Vec<usize> = run.files.iter().map(|f| f.fidx).collect();
+    if run.dead {
+        return;
+    }
+    if kind == 4 {
+        run.open(Some("Uid0Abc"), None);
+        run.open(Some("OtherUid9"), None);
+        run.open(Some("nobody"), None);
+    }
+    // directory order permutations through create_index
+    let nperm = if ids.len() >= 2 { if thorough { 6 } else { 2 } } else { 1 };
+    for _ in 0..nperm {
+        let mut p = ids.clone();
+        for i in (1..p.len()).rev() {
+            p.swap(i, rng.below(i as u64 + 1) as usize);
+        }
+        if rng.chance(1, 6) && p.len() > 1 {
+            p.pop(); // a listing without one of the files
+        }
+        run.open(None, Some(&p));
+        if run.dead {
+            return;
+        }
+    }
+    // truncation: one file cut, the others intact
+    let mut offsets: Vec<(usize, usize)> = vec![];
+    for f in &run.files {
+        let n = f.full.len();
+        if thorough && n <= 3000 {
+            offsets.extend((0..n).map(|o| (f.fidx, o)));
+        } else {
+            let mut marks: BTreeSet<usize> = BTreeSet::new();
+            let (hl, lay) = decode_layout(&f.full);
+            let mut borders = vec![0usize, hl, n];
+            for (s, e, _) in &lay {
+                borders.push(*s);
+                borders.push(*e);
+            }
+            let per_file = if thorough { 600 } else { 64 / run.files.len().max(1) + 1 };
+            for _ in 0..per_file {
+                let o = if rng.chance(1, 2) || n == 0 {
+                    let b = *rng.pick(&borders) as i64 + rng.range(0, 24) as i64 - 12;
+                    b.clamp(0, n as i64) as usize
+                } else {
+                    rng.below(n as u64) as usize
+                };
+                if o < n {
+                    marks.insert(o);
+                }
+            }
+            offsets.extend(marks.into_iter().map(|o| (f.fidx, o)));
+        }
+    }
+    let mut prev: Option<usize> = None;
+    for (fidx, o) in offsets {
+        if let Some(p) = prev {
+            if p != fidx {
+                let full = run.file(p).full.len();
+                run.cut(p, full);
+            }
+        }
+        prev = Some(fidx);
+        run.cut(fidx, o);
+        if ids.len() >= 2 && rng.chance(1, 4) {
+            let mut p = ids.clone();
+            for i in (1..p.len()).rev() {
+                p.swap(i, rng.below(i as u64 + 1) as usize);
+            }
+            run.open(None, Some(&p));
+        } else {
+            run.open(None, None);
+        }
+        if run.dead {
+            return;
+        }
+    }
+    if let Some(p) = prev {
+        let full = run.file(p).full.len();
+        run.cut(p, full);
+    }
+    // several workers crashed: every file cut somewhere
+    if ids.len() >= 2 {
+        for _ in 0..(if thorough { 40 } else { 6 }) {
+            for i in &ids {
+                let n = run.file(*i).full.len();
+                let o = if rng.chance(1, 3) { n } else { rng.below(n as u64 + 1) as usize };
+                run.cut(*i, o);
+            }
+            run.open(None, None);
+            if run.dead {
+                return;
+            }
+        }
+    }
+}
+
+/// borders of the time stamps chrono accepts (constants `timeMin`/`timeMax` of the Lean model)
+fn probe_time_borders() -> (i128, i128) {
+    let ok = |t: i64| chrono::DateTime::from_timestamp_millis(t).is_some();
+    let (mut lo, mut hi) = (0i128, i64::MAX as i128);
+    while lo < hi {
+        let mid = (lo + hi + 1) / 2;
+        if ok(mid as i64) { lo = mid } else { hi = mid - 1 }
+    }
+    let max = lo;
+    let (mut lo, mut hi) = (i64::MIN as i128, 0i128);
+    while lo < hi {
+        let mid = (lo + hi).div_euclid(2);
+        if ok(mid as i64) { hi = mid } else { lo = mid + 1 }
+    }
+    (lo, max)
+}
+
+fn generate(args: &GenArgs) {
+    assert_eq!(probe_time_borders(), (TIME_MIN as i128, TIME_MAX as i128), "chrono's time stamp range differs from the model's constants");
+    let mut tr = Trace::new();
+    let bufsize = stdio_buffer_size();
+    let forced = args.value("--kind").map(|k| k.parse().unwrap());
+    assert_eq!(hk::streamer_buffer_size(), 128, "STREAMER_BUFFER_SIZE changed: revisit the writer model's queue assumption");
+    for k in 0..args.cases {
+        let subseed = args.case_seed(k);
+        let idx = args.shard * 1_000_000 + k;
+        // the first cases of shard 0 are fixed small scenarios
+        if args.shard == 0 && k == 0 && forced.is_none() {
+            fixed_cases(&mut tr, idx);
+            continue;
+        }
+        run_case(&mut tr, idx, subseed, args.thorough, bufsize, forced);
+        tr.flush();
+    }
+    tr.flush();
+}
+
+/// hand-written scenarios: empty directory, a worker that wrote nothing, the canonical two-run example
+fn fixed_cases(tr: &mut Trace, idx: u64) {
+    let tmp = tempfile::tempdir().unwrap();
+    let dir = tmp.path().join("stream");
+    std::fs::create_dir_all(&dir).unwrap();
+    tr.case(idx, 0, "kind=fixed");
+    let mut run = CaseRun { tr, dir, scratch: tmp.path().join("stdout.capture"), files: vec![], dead: false, cat_checked: false };
+    run.open(None, None); // no files at all
+    run.add_written(0, "Uid0Abc", 1, vec![], Via::Api, true);
+    run.open(None, None);
+    let c = |inst: u32, ch: u32, len: usize, d: u64| ChunkSpec { time: 0, job: 1, task: 0, inst, ch, len, dseed: d };
+    // run 1 of task 1.0 on worker 2 dies after two chunks, run 2 on worker 3 completes
+    run.add_written(1, "Uid0Abc", 2, vec![c(1, 0, 5, 1), c(1, 1, 2, 2)], Via::Api, true);
+    run.add_written(2, "Uid0Abc", 3, vec![c(2, 0, 3, 3), c(2, 0, 4, 4), c(2, 1, 0, 0), c(2, 0, 0, 0)], Via::Api, true);
+    run.open(None, None);
+    run.open(None, Some(&[2, 1, 0]));
+    run.open(None, Some(&[1, 0, 2]));
+    run.tr.end();
+}
+
+fn replay() {
+    let mut input = String::new();
+    std::io::stdin().read_to_string(&mut input).unwrap();
+    let mut tr = Trace::new();
+    let mut cur: Option<(tempfile::TempDir, Vec<DiskFile>, bool, bool)> = None;
+    for line in input.lines() {
+        let t: Vec<&str> = line.split_whitespace().collect();
+        if t.is_empty() {
+            continue;
+        }
+        match t[0] {
+            "case" => {
+                tr.line(line);
+                let tmp = tempfile::tempdir().unwrap();
+                std::fs::create_dir_all(tmp.path().join("stream")).unwrap();
+                cur = Some((tmp, vec![], false, false));
+            }
+            "end" => {
+                tr.end();
+                cur = None;
+            }
+            "op" => {
+                let Some((tmp, files, dead, cat_checked)) = cur.take() else { continue };
+                let mut run = CaseRun { tr: &mut tr, dir: tmp.path().join("stream"), scratch: tmp.path().join("stdout.capture"), files, dead, cat_checked };
+                match t[1] {
+                    // replayed writers always go through the explicit queue (time stamps are part of the op)
+                    "file" => {
+                        let chunks: Vec<ChunkSpec> = if t[5] == "-" { vec![] } else { t[5].split(',').map(ChunkSpec::parse).collect() };
+                        let fidx: usize = t[2].parse().unwrap();
+                        run.add_written(fidx, t[3], t[4].parse().unwrap(), chunks, Via::Raw, true);
+                        if t.len() > 6 && t[6] != "-" {
+                            run.cut(fidx, t[6].parse().unwrap());
+                        }
+                    }
+                    "raw" => run.add_raw(t[2].parse().unwrap(), unhex(t[3])),
+                    "cut" => run.cut(t[2].parse().unwrap(), t[3].parse().unwrap()),
+                    "open" => run.open(if t[2] == "-" { None } else { Some(t[2]) }, None),
+                    "openp" => {
+                        let order: Vec<usize> = crate::util::parse_list(t[2]).into_iter().map(|x| x as usize).collect();
+                        run.open(None, Some(&order));
+                    }
+                    _ => run.tr.out("!bad-op"),
+                }
+                let CaseRun { files, dead, cat_checked, .. } = run;
+                cur = Some((tmp, files, dead, cat_checked));
+            }
+            _ => {}
+        }
+    }
+    tr.flush();
+}
+
+pub fn main(mode: &str, args: &[String]) {
+    match mode {
+        "gen" => generate(&GenArgs::parse(args)),
+        "replay" => replay(),
+        "probe" => {
+            let (lo, max) = probe_time_borders();
+            println!("time_min {lo} time_max {max} model {TIME_MIN} {TIME_MAX}");
+        }
+        _ => {
+            eprintln!("component stream: unknown mode {mode}");
+            std::process::exit(2);
+        }
+    }
 }
